@@ -98,7 +98,7 @@ def session(name: str):
         if name == 'extnh':
             caps.append(build.cap_ext_nh([(1, 1, 2), (1, 128, 2), (2, 1, 1)]))
         body = build.open_with_caps(65000, 90, 0x0A000002, caps)
-        neg = exa.negotiate(neighbor, body, exa.Direction.OUT)
+        neg = exa.negotiate(neighbor, body, exa.Direction.IN)  # the daemon makes its one Negotiated per session with Direction.IN (reactor/protocol.py) and encodes with it
         if bool(neg.asn4) != asn4:
             raise RuntimeError('harness: asn4 not negotiated as modelled')
         for fam in gen.ADDPATH_FAMILIES:
@@ -451,6 +451,16 @@ def variant_bytes(fam, x: bytes, addpath: bool, variant: dict) -> tuple[str, byt
         lay = ip_layout(fam, x, addpath)
         if not lay or lay[5] < 1 or lay[4] >= len(x):
             return None
+        if pos % 2:
+            # another prefix length that needs the same number of octets (10.0.0.0/24 and 10.0.0.0/23): the octets stay, the
+            # length octet in front of the label stack changes - two prefixes, never one route
+            bits = lay[5]
+            low = ((bits - 1) // 8) * 8 + 1
+            new_bits = low + ((bits - low) + 1 + (pos // 2) % 7) % 8
+            if new_bits > (32 if fam[0] == 1 else 128) or new_bits == bits:
+                return None
+            y[lay[0]] = x[lay[0]] - bits + new_bits
+            return 'prefix', bytes(y)
         y[lay[4]] ^= 0x80
         return 'prefix', bytes(y)
     if kind == 'label':
@@ -1537,7 +1547,7 @@ SAME_CLASS = {f: [g for g in FAMILIES if g != f and FAMILY_CLASS[g] is FAMILY_CL
 
 
 def standard_variants(fam) -> list[dict]:
-    out = [{'kind': 'rd', 'pos': 5, 'xor': 1}, {'kind': 'pathid', 'pos': 3, 'xor': 1}, {'kind': 'prefix'}, {'kind': 'label', 'xor': 0x10}]
+    out = [{'kind': 'rd', 'pos': 5, 'xor': 1}, {'kind': 'pathid', 'pos': 3, 'xor': 1}, {'kind': 'prefix'}, {'kind': 'prefix', 'pos': 1}, {'kind': 'prefix', 'pos': 7}, {'kind': 'label', 'xor': 0x10}]
     out += [{'kind': 'family', 'fam': list(g)} for g in SAME_CLASS.get(fam, [])]
     return out
 
